@@ -81,6 +81,7 @@ def gen_cases(tier, seed):
             spec.append({"p": "adir/x", "k": "f", "size": 4, "seed": 2, "segs": None})
             srcs.insert(pos, "adir")
             dstate = "collide"
+            collide_kind = r.choice(["file", "file", "dangling-link", "fifo", "link-to-file"])
         elif cls == "same-as-dest":
             which = r.choice(["file", "dir", "mapped"])
             if which == "file":
@@ -91,16 +92,23 @@ def gen_cases(tier, seed):
                          {"p": "ldir", "k": "l", "target": "adir"}]
                 srcs, dest = [r.choice(["adir", "adir", "./adir", "adir/"])], r.choice(["adir", "./adir", "adir/", "@ROOT@/adir", "ldir", "adir/../adir", "ldir/"])
             else:
+                # a file named (under any spelling, or reached through a link in the destination) inside the destination directory itself
                 spec.append({"p": "adir", "k": "d"})
                 spec.append({"p": "adir/v0", "k": "f", "size": 4, "seed": 2, "segs": None})
-                srcs.insert(pos, "adir/v0")
+                how = r.choice(["plain", "plain", "dot", "dotdot", "abs", "dest-link"])
+                if how == "dest-link":
+                    spec.append({"p": "other-v", "k": "f", "size": 5, "seed": 3, "segs": None})
+                    spec.append({"p": "adir/other-v", "k": "l", "target": "../other-v"})
+                    srcs.insert(pos, "other-v")
+                else:
+                    srcs.insert(pos, {"plain": "adir/v0", "dot": "./adir/v0", "dotdot": "adir/../adir/v0", "abs": "@ROOT@/adir/v0"}[how])
                 dest = "adir"
                 srcs = [s for s in srcs if s != "v0"] if "v0" in srcs and r.random() < 0.5 else srcs
             dstate = "n/a"
         elif cls == "noclobber-force":
             opts += ["-n", "-f"]
         elif cls == "bad-driver":
-            opts += ["--driver", r.choice(["fast", "parfil", ""])]
+            opts += ["--driver", r.choice(["fast", "parfil", "", "parbloc\xe2\x84\xaa"])]      # (the last one ends in U+212A KELVIN SIGN, which lower-cases to 'k')
         elif cls == "bad-reflink":
             opts += ["--reflink", r.choice(["sometimes", "yes", "alway"])]
         elif cls == "bad-backup":
@@ -144,7 +152,11 @@ def gen_cases(tier, seed):
             if dstate == "populated":
                 pre += [{"p": "dst/old", "k": "f", "size": 9, "seed": 6, "segs": None}, {"p": "dst/v0", "k": "f", "size": 2, "seed": 7, "segs": None}]
             if dstate == "collide":
-                pre.append({"p": "dst/adir", "k": "f", "size": 6, "seed": 8, "segs": None})
+                # something that is not a directory sits where the directory maps to
+                pre.append({"file": {"p": "dst/adir", "k": "f", "size": 6, "seed": 8, "segs": None}, "dangling-link": {"p": "dst/adir", "k": "l", "target": "nowhere-at-all"},
+                            "fifo": {"p": "dst/adir", "k": "fifo"}, "link-to-file": {"p": "dst/adir", "k": "l", "target": "old"}}[collide_kind])
+                if collide_kind == "link-to-file":
+                    pre.append({"p": "dst/old", "k": "f", "size": 9, "seed": 6, "segs": None})
         if cls in ("no-source",) and dstate == "absent":
             pass
         drv = [] if cls == "bad-driver" else ["--driver", driver]
